@@ -731,8 +731,9 @@ fn collect_track_data<R: Read + Seek, T>(
     bone_index: usize,
     track_type: TrackType,
 ) -> Result<Option<BoneAnimationRaw>> {
-    // Skip empty tracks
-    if track.timestamps.is_empty() && track.values.is_empty() {
+    // Skip empty tracks (a pre-WotLK track without keys can still carry ranges)
+    let has_ranges = version < 264 && track.ranges.as_ref().is_some_and(|r| !r.is_empty());
+    if track.timestamps.is_empty() && track.values.is_empty() && !has_ranges {
         return Ok(None);
     }
 
@@ -1323,8 +1324,11 @@ fn collect_particle_track_data<R: Read + Seek, T: M2Parse>(
 ) -> Result<Option<ParticleAnimationRaw>> {
     let track = &block.track;
 
-    // Skip empty tracks
-    if track.timestamps.is_empty() && track.values.array.is_empty() {
+    // Skip empty tracks (a track without keys can still carry interpolation ranges)
+    if track.timestamps.is_empty()
+        && track.values.array.is_empty()
+        && track.interpolation_ranges.is_empty()
+    {
         return Ok(None);
     }
 
@@ -1492,8 +1496,11 @@ fn collect_ribbon_track_data<R: Read + Seek, T: M2Parse>(
 ) -> Result<Option<RibbonAnimationRaw>> {
     let track = &block.track;
 
-    // Skip empty tracks
-    if track.timestamps.is_empty() && track.values.array.is_empty() {
+    // Skip empty tracks (a track without keys can still carry interpolation ranges)
+    if track.timestamps.is_empty()
+        && track.values.array.is_empty()
+        && track.interpolation_ranges.is_empty()
+    {
         return Ok(None);
     }
 
@@ -1598,8 +1605,11 @@ fn collect_texture_track_data<R: Read + Seek, T: M2Parse>(
 ) -> Result<Option<TextureAnimationRaw>> {
     let track = &block.track;
 
-    // Skip empty tracks
-    if track.timestamps.is_empty() && track.values.array.is_empty() {
+    // Skip empty tracks (a track without keys can still carry interpolation ranges)
+    if track.timestamps.is_empty()
+        && track.values.array.is_empty()
+        && track.interpolation_ranges.is_empty()
+    {
         return Ok(None);
     }
 
@@ -1708,8 +1718,11 @@ fn collect_color_track_data<R: Read + Seek, T: M2Parse>(
 ) -> Result<Option<ColorAnimationRaw>> {
     let track = &block.track;
 
-    // Skip empty tracks
-    if track.timestamps.is_empty() && track.values.array.is_empty() {
+    // Skip empty tracks (a track without keys can still carry interpolation ranges)
+    if track.timestamps.is_empty()
+        && track.values.array.is_empty()
+        && track.interpolation_ranges.is_empty()
+    {
         return Ok(None);
     }
 
@@ -1788,8 +1801,11 @@ fn collect_transparency_track_data<R: Read + Seek, T: M2Parse>(
 ) -> Result<Option<TransparencyAnimationRaw>> {
     let track = &block.track;
 
-    // Skip empty tracks
-    if track.timestamps.is_empty() && track.values.array.is_empty() {
+    // Skip empty tracks (a track without keys can still carry interpolation ranges)
+    if track.timestamps.is_empty()
+        && track.values.array.is_empty()
+        && track.interpolation_ranges.is_empty()
+    {
         return Ok(None);
     }
 
@@ -1903,8 +1919,11 @@ fn collect_attachment_track_data<R: Read + Seek, T: M2Parse>(
 ) -> Result<Option<AttachmentAnimationRaw>> {
     let track = &block.track;
 
-    // Skip empty tracks
-    if track.timestamps.is_empty() && track.values.array.is_empty() {
+    // Skip empty tracks (a track without keys can still carry interpolation ranges)
+    if track.timestamps.is_empty()
+        && track.values.array.is_empty()
+        && track.interpolation_ranges.is_empty()
+    {
         return Ok(None);
     }
 
@@ -1979,8 +1998,11 @@ fn collect_camera_track_data<R: Read + Seek, T: M2Parse>(
 ) -> Result<Option<CameraAnimationRaw>> {
     let track = &block.track;
 
-    // Skip empty tracks
-    if track.timestamps.is_empty() && track.values.array.is_empty() {
+    // Skip empty tracks (a track without keys can still carry interpolation ranges)
+    if track.timestamps.is_empty()
+        && track.values.array.is_empty()
+        && track.interpolation_ranges.is_empty()
+    {
         return Ok(None);
     }
 
@@ -2075,8 +2097,11 @@ fn collect_light_track_data<R: Read + Seek, T: M2Parse>(
 ) -> Result<Option<LightAnimationRaw>> {
     let track = &block.track;
 
-    // Skip empty tracks
-    if track.timestamps.is_empty() && track.values.array.is_empty() {
+    // Skip empty tracks (a track without keys can still carry interpolation ranges)
+    if track.timestamps.is_empty()
+        && track.values.array.is_empty()
+        && track.interpolation_ranges.is_empty()
+    {
         return Ok(None);
     }
 
